@@ -143,17 +143,27 @@ func (c *Ctx) Options() *ir.Options {
 	c.opt = &ir.Options{
 		MaxInline: depth,
 		Inline: func(f *ssa.Function) bool {
+			followed := func(path string) bool {
+				// the repository's own code, and the standard iterator adapters (slices.Values, slices.AppendSeq,
+				// maps.Keys ...): small generic functions whose source is part of the loaded program
+				return load.Logical(path) != "" || path == "slices" || path == "maps" || path == "iter"
+			}
 			if f.Pkg == nil {
 				// anonymous functions / instantiations: look at the parent / origin
-				if p := f.Parent(); p != nil && p.Pkg != nil {
-					return load.Logical(p.Pkg.Pkg.Path()) != ""
+				for p := f.Parent(); p != nil; p = p.Parent() {
+					if p.Pkg != nil {
+						return followed(p.Pkg.Pkg.Path())
+					}
+					if o := p.Origin(); o != nil && o.Pkg != nil {
+						return followed(o.Pkg.Pkg.Path())
+					}
 				}
 				if o := f.Origin(); o != nil && o.Pkg != nil {
-					return load.Logical(o.Pkg.Pkg.Path()) != ""
+					return followed(o.Pkg.Pkg.Path())
 				}
 				return false
 			}
-			return load.Logical(f.Pkg.Pkg.Path()) != ""
+			return followed(f.Pkg.Pkg.Path())
 		},
 		PureCall: PureCall,
 	}
